@@ -5,10 +5,15 @@
    Model/Forward.lean whose gating is checked against the real node on every run (harness c02.rs).
    Every statement about the machine quantifies over ALL op lists, including `crash` / `restart` at any point,
    either persistence mode, on-chain preimage / timeout, and B's own (guarded) upstream actions.
-   Scope: one HTLC; on-chain claiming itself is C07; trampoline / intercept forwards are not modelled. -/
+   `outcome` / `admitHop` (every next-hop kind: real channel, phantom SCID, intercept SCID, unknown SCID) is composed
+   from the GENERATED translations of can_forward_htlc_should_intercept, can_forward_htlc_to_outgoing_channel,
+   forward_needs_intercept_to_{known,unknown}_chan, htlc_satisfies_config, create_htlc_intercepted_event and
+   forward_intercepted_htlc (Generated/Forward.lean, regenerated on every run).
+   Scope: one HTLC; on-chain claiming itself is C07; trampoline and blinded forwards are not modelled. -/
 import LdkModel.Proofs.Forward
+import LdkModel.Proofs.ForwardHop
 namespace Ldk.C02
-open Ldk Ldk.Forward
+open Ldk Ldk.Forward Ldk.FwdGen
 
 /-! ## admission -/
 
@@ -295,5 +300,344 @@ example :
 example :
     let s := run init [.recvFailDown, .recvCsDown, .recvRaaDown, .sendFailUp]
     s.up = .failSent ∧ deltaWorst 101000 100000 s = 0 := by decide
+
+/-! ## admission for every next-hop kind (real channel, phantom SCID, intercept SCID, unknown SCID) -/
+
+/-- **unknown_scid_arm_exact.** Exact characterisation of the `None =>` arm of can_forward_htlc_should_intercept
+    (generated `cfsiUnknown`; the outgoing SCID is not one of our channels): the forward payload asks for no more
+    than the HTLC carries and grants at least `MIN_CLTV_EXPIRY_DELTA`, and the SCID is a phantom SCID (not
+    intercepted) or one the interception flags cover (intercepted) -/
+theorem unknown_scid_arm_exact (fl : Nat) (isI isP : Bool) (ia ic oa oc : Nat) (b : Bool) :
+    cfsiUnknown fl isI isP ia ic oa oc = .ok b ↔
+      oa ≤ ia ∧ oc + MIN_CLTV_EXPIRY_DELTA ≤ ic ∧
+      ((isP = true ∧ b = false) ∨ (isP = false ∧ forwardNeedsInterceptToUnknownChan fl isI isP = true ∧ b = true)) := by
+  have hmin : 0 < MIN_CLTV_EXPIRY_DELTA := by decide
+  unfold cfsiUnknown
+  by_cases c1 : oa > ia
+  · simp only [c1, decide_true, if_true]; constructor
+    · intro h; cases h
+    · intro h; omega
+  · simp only [c1, decide_false, Bool.false_eq_true, if_false]
+    by_cases c2 : ic - oc < MIN_CLTV_EXPIRY_DELTA
+    · simp only [c2, decide_true, if_true]; constructor
+      · intro h; cases h
+      · intro h; omega
+    · simp only [c2, decide_false, Bool.false_eq_true, if_false]
+      have h1 : oa ≤ ia := by omega
+      have h2 : oc + MIN_CLTV_EXPIRY_DELTA ≤ ic := by omega
+      cases isP with
+      | true =>
+        cases b <;> simp [h1, h2]
+      | false =>
+        cases hn : forwardNeedsInterceptToUnknownChan fl isI false <;> cases b <;> simp [h1, h2]
+
+/-- **unknown_scid_arm_no_loss.** Proved directly on the translated `None =>` arm: whatever the interception flags and
+    the namespace of the SCID, an HTLC is let through (to be intercepted, or to our phantom node) only if the forward
+    payload asks for no more than the HTLC carries and grants at least `MIN_CLTV_EXPIRY_DELTA`. -/
+theorem unknown_scid_arm_no_loss (fl : Nat) (isI isP : Bool) (ia ic oa oc : Nat) (b : Bool)
+    (hok : cfsiUnknown fl isI isP ia ic oa oc = .ok b) : oa ≤ ia ∧ oc + MIN_CLTV_EXPIRY_DELTA ≤ ic :=
+  let ⟨h1, h2, _⟩ := (unknown_scid_arm_exact fl isI isP ia ic oa oc b).mp hok
+  ⟨h1, h2⟩
+
+example : cfsiUnknown FLAG_ToInterceptSCIDs true false 100000 500 100000 452 = .ok true := by rfl
+example : cfsiUnknown FLAG_ToInterceptSCIDs true false 100000 500 100001 452 = .error .feeInsufficient := by rfl
+example : cfsiUnknown FLAG_ToUnknownSCIDs false false 1 500 1000000 452 = .error .feeInsufficient := by rfl
+example : cfsiUnknown 0 false true 100000 500 100001 452 = .error .feeInsufficient := by rfl
+
+/-- **hop_offer_bounded.** Whatever the onion's outgoing SCID resolves to, for all inbound amounts / expiries, onion
+    amounts / expiries, node settings, interception flags and channel views: if the node offers an HTLC downstream —
+    directly, or by releasing an intercepted HTLC at its `expected_outbound_amount_msat` — then it offers exactly what
+    the onion asked for, never more than the inbound HTLC carries, with an expiry at least `MIN_CLTV_EXPIRY_DELTA`
+    before the inbound expiry, and with the height margins of `check_incoming_htlc_cltv`. -/
+theorem hop_offer_bounded (n : NodeCfg) (best : Nat) (hop : NextHop) (h : Htlc) (a c : Nat)
+    (ho : downstreamOffer (outcome n best hop h) = some (a, c)) :
+    a = h.outAmt ∧ c = h.outCltv ∧ a ≤ h.inAmt ∧ c + MIN_CLTV_EXPIRY_DELTA ≤ h.inCltv ∧
+    curHeight best + LATENCY_GRACE_PERIOD_BLOCKS < c ∧ curHeight best + HTLC_FAIL_BACK_BUFFER < h.inCltv := by
+  unfold outcome at ho
+  cases hadm : admitHop n best hop h with
+  | error r => simp [hadm, downstreamOffer] at ho
+  | ok i =>
+    simp only [hadm, fwdPendingInfo, interceptedEvent] at ho
+    -- the amount bound of the arm that ran
+    have hamt : h.outAmt ≤ h.inAmt ∧ checkIncomingHtlcCltv (curHeight best) h.outCltv h.inCltv MIN_CLTV_EXPIRY_DELTA = .ok () := by
+      cases hop with
+      | chan cv =>
+        obtain ⟨ht, hk⟩ := admitHop_chan_ok hadm
+        obtain ⟨-, hto⟩ := known_ok hk
+        obtain ⟨hs, -⟩ := to_outgoing_ok hto
+        obtain ⟨cfg, -, hs'⟩ := chan_satisfies_ok hs
+        obtain ⟨fee, -, hle, -⟩ := satisfies_ok hs'
+        exact ⟨by omega, ht⟩
+      | phantom | interceptScid | unknown =>
+        obtain ⟨ht, hu⟩ := admitHop_nonchan_ok rfl hadm
+        exact ⟨((unknown_scid_arm_exact ..).mp hu).1, ht⟩
+    obtain ⟨hle, ht⟩ := hamt
+    obtain ⟨t1, t2, -, t4⟩ := (cltv_ok_iff ..).mp ht
+    have fin : ∀ a c, (a, c) = (h.outAmt, h.outCltv) →
+        a = h.outAmt ∧ c = h.outCltv ∧ a ≤ h.inAmt ∧ c + MIN_CLTV_EXPIRY_DELTA ≤ h.inCltv ∧
+        curHeight best + LATENCY_GRACE_PERIOD_BLOCKS < c ∧ curHeight best + HTLC_FAIL_BACK_BUFFER < h.inCltv := by
+      intro a c e; injection e with e1 e2; subst e1; subst e2; exact ⟨rfl, rfl, hle, t1, t4, t2⟩
+    cases i with
+    | true =>
+      simp only [if_true, downstreamOffer, releaseIntercepted, forwardIntercepted, Option.some.injEq] at ho
+      exact fin a c ho.symm
+    | false =>
+      cases hop with
+      | chan cv =>
+        simp only [Bool.false_eq_true, if_false, downstreamOffer, Option.some.injEq] at ho
+        exact fin a c ho.symm
+      | phantom =>
+        simp only [Bool.false_eq_true, if_false] at ho
+        cases hfin : finalExpiryTooSoon best h.outCltv <;> simp [hfin, downstreamOffer] at ho
+      | interceptScid | unknown => simp [downstreamOffer] at ho
+
+/-- **hop_chan_fee_and_delta.** A forward over one of our channels — intercepted or not — pays the fee and grants
+    the CLTV delta of a `ChannelConfig` the channel advertises (the current one, or `prev_config`), reaches the
+    counterparty's `htlc_minimum_msat`, uses a private channel only if `accept_forwards_to_priv_channels`, and
+    uses a channel that is not live only through an intercept. -/
+theorem hop_chan_fee_and_delta (n : NodeCfg) (best : Nat) (cv : ChanView) (h : Htlc) (a c : Nat)
+    (ho : downstreamOffer (outcome n best (.chan cv) h) = some (a, c)) :
+    (∃ cfg, cv.accepts cfg ∧ (∃ fee, cfg.fee a = some fee ∧ a + fee ≤ h.inAmt) ∧ c + cfg.cltvDelta ≤ h.inCltv) ∧
+    cv.cpHtlcMin ≤ a ∧ (cv.announce = true ∨ n.acceptPriv = true) ∧
+    (cv.live = true ∨ ∃ i e x, outcome n best (.chan cv) h = .intercepted i e x) ∧
+    (cv.scidPrivacy = true → h.scid = cv.scidAlias) := by
+  obtain ⟨ea, ec, -⟩ := hop_offer_bounded n best (.chan cv) h a c ho
+  subst ea; subst ec
+  unfold outcome at ho ⊢
+  cases hadm : admitHop n best (.chan cv) h with
+  | error r => simp [hadm, downstreamOffer] at ho
+  | ok i =>
+    obtain ⟨-, hk⟩ := admitHop_chan_ok hadm
+    obtain ⟨-, hto⟩ := known_ok hk
+    obtain ⟨hs, hmin, hpriv, hlive, halias⟩ := to_outgoing_ok hto
+    obtain ⟨cfg, hacc, hs'⟩ := chan_satisfies_ok hs
+    obtain ⟨fee, hfee, hle, hd⟩ := satisfies_ok hs'
+    refine ⟨⟨cfg, hacc, ⟨fee, hfee, hle⟩, hd⟩, hmin, hpriv, ?_, halias⟩
+    rcases hlive with hi | hl
+    · subst hi
+      exact Or.inr ⟨h.inAmt, h.outAmt, h.outCltv, by simp [fwdPendingInfo, interceptedEvent]⟩
+    · exact Or.inl hl
+
+/-- non-vacuity: a plain forward, a forward accepted only under `prev_config`, an intercept to an offline private
+    channel, and the rejections next to them -/
+example : outcome ⟨0, false⟩ 100 (.chan ⟨true, true, true, true, false, 7, 1000, ⟨0, 1000, 72⟩, none⟩) ⟨true, 42, 101000, 500, 100000, 428⟩
+    = .forward 100000 428 := by decide
+example : outcome ⟨0, false⟩ 100 (.chan ⟨true, true, true, true, false, 7, 1000, ⟨0, 1000, 72⟩, none⟩) ⟨true, 42, 100999, 500, 100000, 428⟩
+    = .reject .feeInsufficient := by decide
+example : outcome ⟨0, false⟩ 100 (.chan ⟨true, true, true, true, false, 7, 1000, ⟨0, 2000, 72⟩, some ⟨0, 1000, 72⟩⟩) ⟨true, 42, 101000, 500, 100000, 428⟩
+    = .forward 100000 428 := by decide
+example : outcome ⟨0, false⟩ 100 (.chan ⟨true, true, true, true, false, 7, 1000, ⟨0, 1000, 72⟩, none⟩) ⟨true, 42, 101000, 500, 999, 428⟩
+    = .reject .amountBelowMinimum := by decide
+example : outcome ⟨0, false⟩ 100 (.chan ⟨false, true, true, true, false, 7, 1000, ⟨0, 1000, 72⟩, none⟩) ⟨true, 42, 101000, 500, 100000, 428⟩
+    = .reject .privateChannelForward := by decide
+example : outcome ⟨0, true⟩ 100 (.chan ⟨false, false, true, false, false, 7, 1000, ⟨0, 1000, 72⟩, none⟩) ⟨true, 42, 101000, 500, 100000, 428⟩
+    = .reject .peerOffline := by decide
+example : outcome ⟨FLAG_ToOfflinePrivateChannels, true⟩ 100 (.chan ⟨false, false, true, false, false, 7, 1000, ⟨0, 1000, 72⟩, none⟩) ⟨true, 42, 101000, 500, 100000, 428⟩
+    = .intercepted 101000 100000 428 := by decide
+
+/-- **hop_intercept_event_sound.** Every `HTLCIntercepted` event — towards a known channel, an intercept SCID or an
+    unknown SCID — reports the inbound amount truthfully and an `expected_outbound_amount_msat` that does not exceed
+    it, with an outgoing expiry at least `MIN_CLTV_EXPIRY_DELTA` before the inbound one.  Releasing it with
+    `forward_intercepted_htlc(.., amt)` offers exactly `amt` at that expiry (LDK does not second-guess the caller):
+    the node cannot lose on the HTLC exactly when `amt ≤ inbound_amount_msat`, which `amt ≤ expected` guarantees. -/
+theorem hop_intercept_event_sound (n : NodeCfg) (best : Nat) (hop : NextHop) (h : Htlc) (i e x : Nat)
+    (ho : outcome n best hop h = .intercepted i e x) :
+    i = h.inAmt ∧ e = h.outAmt ∧ x = h.outCltv ∧ e ≤ i ∧ x + MIN_CLTV_EXPIRY_DELTA ≤ h.inCltv ∧
+    (∀ amt, releaseIntercepted (outcome n best hop h) amt = some (amt, x)) ∧
+    (∀ amt, amt ≤ e → amt ≤ h.inAmt) := by
+  have hoff : downstreamOffer (outcome n best hop h) = some (e, x) := by
+    simp [ho, downstreamOffer, releaseIntercepted, forwardIntercepted]
+  obtain ⟨e1, e2, hle, hc, -⟩ := hop_offer_bounded n best hop h e x hoff
+  have hi : i = h.inAmt := by
+    unfold outcome at ho
+    cases hadm : admitHop n best hop h with
+    | error r => simp [hadm] at ho
+    | ok b =>
+      simp only [hadm, fwdPendingInfo, interceptedEvent] at ho
+      cases b with
+      | true => simp only [if_true, Outcome.intercepted.injEq] at ho; exact ho.1.symm
+      | false =>
+        simp only [Bool.false_eq_true, if_false] at ho
+        cases hop <;> simp at ho
+        cases hfin : finalExpiryTooSoon best h.outCltv <;> simp [hfin] at ho
+  refine ⟨hi, e1, e2, by omega, hc, ?_, ?_⟩
+  · intro amt; simp [ho, releaseIntercepted, forwardIntercepted]
+  · intro amt hamt; omega
+
+/-- non-vacuity: intercept SCID and unknown SCID, the onion asking for less than / exactly / one msat more than
+    the HTLC carries -/
+example : outcome ⟨FLAG_ToInterceptSCIDs, false⟩ 100 .interceptScid ⟨true, 42, 100000, 500, 99000, 452⟩ = .intercepted 100000 99000 452 := by decide
+example : outcome ⟨FLAG_ToInterceptSCIDs, false⟩ 100 .interceptScid ⟨true, 42, 100000, 500, 100000, 452⟩ = .intercepted 100000 100000 452 := by decide
+example : outcome ⟨FLAG_ToInterceptSCIDs, false⟩ 100 .interceptScid ⟨true, 42, 100000, 500, 100001, 452⟩ = .reject .feeInsufficient := by decide
+example : outcome ⟨FLAG_ToUnknownSCIDs, false⟩ 100 .unknown ⟨true, 42, 100000, 500, 150000, 452⟩ = .reject .feeInsufficient := by decide
+example : outcome ⟨FLAG_ToUnknownSCIDs, false⟩ 100 .unknown ⟨true, 42, 100000, 500, 100000, 453⟩ = .reject .incorrectCLTVExpiry := by decide
+example : outcome ⟨FLAG_ToUnknownSCIDs, false⟩ 100 .unknown ⟨true, 42, 100000, 500, 100000, 452⟩ = .intercepted 100000 100000 452 := by decide
+
+/-- **hop_phantom_credit_bounded.** An HTLC to one of our phantom SCIDs that reaches the receive pipeline is credited
+    with exactly what the forward payload named, never more than the inbound HTLC carries, and is far enough from
+    expiry to be claimed (`HTLC_FAIL_BACK_BUFFER + 1` blocks). -/
+theorem hop_phantom_credit_bounded (n : NodeCfg) (best : Nat) (h : Htlc) (a c : Nat)
+    (ho : outcome n best .phantom h = .phantomRecv a c) :
+    a = h.outAmt ∧ c = h.outCltv ∧ a ≤ h.inAmt ∧ c + MIN_CLTV_EXPIRY_DELTA ≤ h.inCltv ∧
+    best + HTLC_FAIL_BACK_BUFFER + 1 < c := by
+  unfold outcome at ho
+  cases hadm : admitHop n best .phantom h with
+  | error r => simp [hadm] at ho
+  | ok b =>
+    obtain ⟨ht, hu⟩ := admitHop_nonchan_ok rfl hadm
+    obtain ⟨hle, hd, -⟩ := (unknown_scid_arm_exact ..).mp hu
+    simp only [hadm, fwdPendingInfo, interceptedEvent] at ho
+    cases b with
+    | true => simp at ho
+    | false =>
+      simp only [Bool.false_eq_true, if_false] at ho
+      cases hfin : finalExpiryTooSoon best h.outCltv with
+      | true => simp [hfin] at ho
+      | false =>
+        simp only [hfin, Outcome.phantomRecv.injEq] at ho
+        obtain ⟨e1, e2⟩ := ho
+        subst e1; subst e2
+        simp only [finalExpiryTooSoon, decide_eq_false_iff_not] at hfin
+        exact ⟨rfl, rfl, hle, hd, by omega⟩
+
+example : outcome ⟨0, false⟩ 100 .phantom ⟨true, 42, 100000, 500, 100000, 452⟩ = .phantomRecv 100000 452 := by decide
+example : outcome ⟨0, false⟩ 100 .phantom ⟨true, 42, 100000, 500, 100001, 452⟩ = .reject .feeInsufficient := by decide
+example : outcome ⟨0, false⟩ 100 .phantom ⟨true, 42, 100000, 188, 100000, 140⟩ = .reject .paymentClaimBuffer := by decide
+example : outcome ⟨0, false⟩ 100 .phantom ⟨true, 42, 100000, 189, 100000, 141⟩ = .phantomRecv 100000 141 := by decide
+
+/-- **admit_nonchan_ok_iff.** Exact characterisation of admission when the SCID is not one of our channels (nothing
+    admissible is refused, nothing else is admitted): the forward payload asks for no more than the HTLC carries,
+    grants at least `MIN_CLTV_EXPIRY_DELTA`, the height margins hold, and the SCID is a phantom SCID (handled as a
+    receive, never intercepted) or is covered by the interception flags (`ToInterceptSCIDs` for an intercept SCID,
+    `ToUnknownSCIDs` for any other). -/
+theorem admit_nonchan_ok_iff (n : NodeCfg) (best : Nat) (hop : NextHop) (h : Htlc) (b : Bool) (hc : hop.chan? = none) :
+    admitHop n best hop h = .ok b ↔
+      h.outAmt ≤ h.inAmt ∧ h.outCltv + MIN_CLTV_EXPIRY_DELTA ≤ h.inCltv ∧
+      curHeight best + HTLC_FAIL_BACK_BUFFER < h.inCltv ∧ h.inCltv ≤ curHeight best + CLTV_FAR_FAR_AWAY ∧
+      curHeight best + LATENCY_GRACE_PERIOD_BLOCKS < h.outCltv ∧
+      ((hop = .phantom ∧ b = false) ∨
+       (hop = .interceptScid ∧ Nat.land n.interceptFlags FLAG_ToInterceptSCIDs ≠ 0 ∧ b = true) ∨
+       (hop = .unknown ∧ Nat.land n.interceptFlags FLAG_ToUnknownSCIDs ≠ 0 ∧ b = true)) := by
+  have key : admitHop n best hop h = .ok b ↔
+      cfsiUnknown n.interceptFlags hop.isIntercept hop.isPhantom h.inAmt h.inCltv h.outAmt h.outCltv = .ok b ∧
+      checkIncomingHtlcCltv (curHeight best) h.outCltv h.inCltv MIN_CLTV_EXPIRY_DELTA = .ok () := by
+    constructor
+    · intro hok; obtain ⟨a1, a2⟩ := admitHop_nonchan_ok hc hok; exact ⟨a2, a1⟩
+    · rintro ⟨hu, ht⟩
+      unfold admitHop canForwardHtlcShouldIntercept
+      simp only [hc, hu]
+      exact (tail_ok_iff _ _ _ _ _).mpr ⟨rfl, ht⟩
+  rw [key, unknown_scid_arm_exact, cltv_ok_iff]
+  cases hop with
+  | chan cv => simp [NextHop.chan?] at hc
+  | phantom =>
+    simp [NextHop.isPhantom, NextHop.isIntercept]
+    constructor
+    · rintro ⟨⟨a1, a2, a3⟩, -, b2, b3, b4⟩; exact ⟨a1, a2, b2, b3, b4, a3⟩
+    · rintro ⟨a1, a2, b2, b3, b4, a3⟩; exact ⟨⟨a1, a2, a3⟩, a2, b2, b3, b4⟩
+  | interceptScid =>
+    simp [NextHop.isPhantom, NextHop.isIntercept, forwardNeedsInterceptToUnknownChan]
+    constructor
+    · rintro ⟨⟨a1, a2, a3⟩, -, b2, b3, b4⟩; exact ⟨a1, a2, b2, b3, b4, a3⟩
+    · rintro ⟨a1, a2, b2, b3, b4, a3⟩; exact ⟨⟨a1, a2, a3⟩, a2, b2, b3, b4⟩
+  | unknown =>
+    simp [NextHop.isPhantom, NextHop.isIntercept, forwardNeedsInterceptToUnknownChan]
+    constructor
+    · rintro ⟨⟨a1, a2, a3⟩, -, b2, b3, b4⟩; exact ⟨a1, a2, b2, b3, b4, a3⟩
+    · rintro ⟨a1, a2, b2, b3, b4, a3⟩; exact ⟨⟨a1, a2, a3⟩, a2, b2, b3, b4⟩
+
+/-- **hop_unknown_rejected.** An HTLC whose outgoing SCID is neither one of our channels nor a phantom SCID is never
+    forwarded and never credited; it is failed back unless the interception flags cover it, and an HTLC to an
+    unknown SCID with `ToUnknownSCIDs` clear (an intercept SCID with `ToInterceptSCIDs` clear) is always failed back. -/
+theorem hop_unknown_rejected (n : NodeCfg) (best : Nat) (hop : NextHop) (h : Htlc)
+    (hk : hop = .unknown ∨ hop = .interceptScid) :
+    (∀ a c, outcome n best hop h ≠ .forward a c ∧ outcome n best hop h ≠ .phantomRecv a c) ∧
+    ((hop = .unknown → Nat.land n.interceptFlags FLAG_ToUnknownSCIDs = 0 → ∃ r, outcome n best hop h = .reject r) ∧
+     (hop = .interceptScid → Nat.land n.interceptFlags FLAG_ToInterceptSCIDs = 0 → ∃ r, outcome n best hop h = .reject r)) := by
+  have hc : hop.chan? = none := by rcases hk with rfl | rfl <;> rfl
+  have hshape : ∀ b, admitHop n best hop h = .ok b →
+      outcome n best hop h = (if b then .intercepted h.inAmt h.outAmt h.outCltv else .reject .unknownNextPeer) := by
+    intro b hb
+    unfold outcome
+    rcases hk with rfl | rfl <;> cases b <;> simp [hb, fwdPendingInfo, interceptedEvent]
+  have hrej : (∀ b, admitHop n best hop h = .ok b → b = false) → ∃ r, outcome n best hop h = .reject r := by
+    intro hf
+    cases hadm : admitHop n best hop h with
+    | error r => exact ⟨r, by simp [outcome, hadm]⟩
+    | ok b => have := hf b hadm; subst this; exact ⟨_, by simpa using hshape false hadm⟩
+  refine ⟨?_, ?_, ?_⟩
+  · intro a c
+    cases hadm : admitHop n best hop h with
+    | error r => simp [outcome, hadm]
+    | ok b => rw [hshape b hadm]; cases b <;> simp
+  · intro hu hz
+    apply hrej
+    intro b hb
+    have := (admit_nonchan_ok_iff n best hop h b hc).mp hb
+    obtain ⟨-, -, -, -, -, hcase⟩ := this
+    subst hu
+    rcases hcase with ⟨hf, -⟩ | ⟨hf, -⟩ | ⟨-, hnz, -⟩
+    · cases hf
+    · cases hf
+    · exact absurd hz hnz
+  · intro hu hz
+    apply hrej
+    intro b hb
+    have := (admit_nonchan_ok_iff n best hop h b hc).mp hb
+    obtain ⟨-, -, -, -, -, hcase⟩ := this
+    subst hu
+    rcases hcase with ⟨hf, -⟩ | ⟨-, hnz, -⟩ | ⟨hf, -⟩
+    · cases hf
+    · exact absurd hz hnz
+    · cases hf
+
+example : outcome ⟨0, false⟩ 100 .unknown ⟨true, 42, 100000, 500, 99000, 452⟩ = .reject .unknownNextPeer := by decide
+example : outcome ⟨FLAG_ToUnknownSCIDs, false⟩ 100 .interceptScid ⟨true, 42, 100000, 500, 99000, 452⟩ = .reject .unknownNextPeer := by decide
+example : outcome ⟨FLAG_ToInterceptSCIDs, false⟩ 100 .unknown ⟨true, 42, 100000, 500, 99000, 452⟩ = .reject .unknownNextPeer := by decide
+
+/-- **admitFwd_is_admitHop.** The plain-channel admission `admitFwd` of the first section is the general decision
+    specialised to an announced, live channel without `scid_privacy`, without a previous config, whose
+    counterparty minimum is met: same acceptance, same failure reason. -/
+theorem admitFwd_is_admitHop (n : NodeCfg) (best : Nat) (cv : ChanView) (h : Htlc)
+    (ha : cv.announce = true) (hl : cv.live = true) (hs : cv.scidPrivacy = false) (hp : cv.prev = none)
+    (hm : cv.cpHtlcMin ≤ h.outAmt) :
+    (admitHop n best (.chan cv) h).map (fun _ => ()) =
+      admitFwd ⟨cv.cfg.feeBase, cv.cfg.feeProp, cv.cfg.cltvDelta⟩ (curHeight best) h.inAmt h.inCltv h.outAmt h.outCltv := by
+  have hm' : ¬ h.outAmt < cv.cpHtlcMin := by omega
+  unfold admitHop canForwardHtlcShouldIntercept admitFwd cfsiKnown canForwardHtlcToOutgoingChannel htlcSatisfiesConfigChan cfsiTail
+  simp only [NextHop.chan?, ha, hl, hs, hp, hm', Bool.not_true, Bool.false_and, Bool.and_false, Bool.false_eq_true, if_false, if_true,
+    decide_false]
+  cases h1 : htlcSatisfiesConfig h.inAmt h.inCltv h.outAmt h.outCltv cv.cfg.feeProp cv.cfg.feeBase cv.cfg.cltvDelta with
+  | error e => rfl
+  | ok u =>
+    cases h2 : checkIncomingHtlcCltv (curHeight best) h.outCltv h.inCltv MIN_CLTV_EXPIRY_DELTA with
+    | error e => rfl
+    | ok u2 => cases u2; rfl
+
+/-- **hop_forward_no_loss.** For every next-hop kind and every downstream offer the admission lets through
+    (including an intercepted HTLC released at its expected amount), on every schedule of the forwarding machine —
+    crashes, restarts, asynchronous persistence, on-chain resolution — the node's worst-case combined balance change
+    is non-negative once it has acted upstream, and equals `inbound − offered` when the next hop claims. -/
+theorem hop_forward_no_loss (n : NodeCfg) (best : Nat) (hop : NextHop) (h : Htlc) (a c : Nat)
+    (ho : downstreamOffer (outcome n best hop h) = some (a, c)) (ops : List Op) :
+    let s := run init ops
+    s.up ≠ .pending →
+      0 ≤ deltaWorst h.inAmt a s ∧
+      (s.up = .fulfilSent → downClaimable s = true → deltaWorst h.inAmt a s = (h.inAmt : Int) - a) := by
+  intro s hne
+  obtain ⟨-, -, hle, -⟩ := hop_offer_bounded n best hop h a c ho
+  have hnl := never_fulfilled_down_failed_up ops
+  cases hu : s.up with
+  | pending => exact absurd hu hne
+  | failSent =>
+    have hc : downClaimable s = false := by
+      cases hd : downClaimable s
+      · rfl
+      · exact absurd ⟨hu, hd⟩ hnl
+    simp [deltaWorst, hu, hc]
+  | fulfilSent =>
+    refine ⟨?_, ?_⟩
+    · cases hc : downClaimable s <;> simp [deltaWorst, hu, hc] <;> omega
+    · intro _ hc; simp [deltaWorst, hu, hc]
 
 end Ldk.C02
